@@ -79,6 +79,16 @@ func TestKnown(t *testing.T) {
 		}
 		return nil
 	})
+	stats.ProbeKnown(t, keyStale, "types.Specifier.UnmarshalText copies the new bytes over the receiver without clearing it: parsing \"ab\" into a specifier holding \"ed25519\" gives \"ab25519\" (also through UnlockKey.UnmarshalText and json.Unmarshal into a reused unlock key)", func() error {
+		k := lookupKind("types.Specifier")
+		v, old := reflect.ValueOf(types.NewSpecifier("ab")), reflect.ValueOf(types.SpecifierEd25519)
+		if err := dirtyReceiver(k, v, old, "ab", false); err != nil {
+			return err
+		}
+		uk := lookupKind("types.UnlockKey")
+		return dirtyReceiver(uk, reflect.ValueOf(types.UnlockKey{Algorithm: types.NewSpecifier("x"), Key: []byte{0}}),
+			reflect.ValueOf(types.UnlockKey{Algorithm: types.SpecifierEd25519, Key: []byte{9}}), "x:00", false)
+	})
 }
 
 // ---------------------------------------------------------------- completeness guard
